@@ -152,7 +152,7 @@ func c13GenCPU(t *rapid.T, label string, intent int) c13Qty {
 		s := rapid.SampledFrom([]struct {
 			S string
 			V int64
-		}{{"1e3m", 1}, {"1k", 1000}, {"2Ki", 2048}, {"1e0", 1}, {"3000000u", 3}, {"2.000", 2}}).Draw(t, label+"Spell")
+		}{{"1E3", 1000}, {"1k", 1000}, {"2Ki", 2048}, {"1e0", 1}, {"3000000u", 3}, {"2.000", 2}}).Draw(t, label+"Spell")
 		return c13Qty{s.S, big.NewRat(s.V, 1)}
 	default:
 		s := rapid.SampledFrom([]struct {
